@@ -82,7 +82,8 @@ func runSurface(c *hlib.Ctx, n int) {
 				if sh.normalOK != nil {
 					nv := model3d.NewCoord3DArray(o.ns[k])
 					if ok, msg := sh.normalOK(p, nv); !ok {
-						c.PropFail("c07:"+tag+"normal-not-outward/"+sh.kind,
+						// the normal is an algebraic function of the reported point (also for cone/torus): not a validation-only check
+						c.PropFail("c07:normal-not-outward/"+sh.kind,
 							fmt.Sprintf("t=%v point=%v %s %s", t, p, msg, descRay3(sh.name, r, class)))
 					}
 				}
@@ -176,7 +177,10 @@ func runParity(c *hlib.Ctx, n int) {
 					fmt.Sprintf("count=%d hits=%v inside=%v %s", o.n0, o.ts, inside, descRay3(sh.name, r, "parity")))
 			}
 			// ColliderContains itself (fixed direction) on the same origin
-			if got := model3d.ColliderContains(sh.col, origin, 0); got != inside {
+			got := inside
+			if res := hlib.Guard(func() string { got = model3d.ColliderContains(sh.col, origin, 0); return "ok" }); res != "ok" {
+				c.PropFail("c07:contract/"+sh.kind+"/panic-or-timeout", "ColliderContains: "+res+" "+descRay3(sh.name, r, "contains"))
+			} else if got != inside {
 				r2 := &model3d.Ray{Origin: origin, Direction: model3d.XYZ(0.5224892708603626, 0.10494477243214506, 0.43558938446126527)}
 				o2 := observe3(sh.col, r2)
 				if generalPosition(o2.ts, r2.Direction.Norm(), sh.scale) {
